@@ -33,6 +33,7 @@ type c07Scenario struct {
 	Seg       int        `json:"segmentation"`
 	LatencyNs int64      `json:"latency_ns"`
 	Dawdle    int        `json:"handler_dawdle"`
+	HandlerIQ int        `json:"handler_sends_iq"` // number of server requests whose handler issues a SendIQ of its own
 }
 
 type c07Resp struct {
@@ -70,6 +71,9 @@ func runC07(e *Engine, g G, o RunOpt) RunInfo {
 		e.Net.Latency = time.Duration(sc.LatencyNs)
 	}
 	sc.Dawdle = g.N("dawdle", 3)
+	if g.Pct("handler-iq", 30) {
+		sc.HandlerIQ = g.Range("handler-iq-n", 1, 3)
+	}
 	n := 0
 	for t := 0; t < sc.Tasks; t++ {
 		k := g.Range("nreq", 1, 6)
@@ -79,7 +83,7 @@ func runC07(e *Engine, g G, o RunOpt) RunInfo {
 		for i := 0; i < k; i++ {
 			n++
 			r := c07Req{ID: fmt.Sprintf("q%d", n), Task: t}
-			r.Ctx = []string{"open", "cancel", "timeout"}[g.Weighted("ctx", 5, 3, 3)]
+			r.Ctx = []string{"open", "cancel", "timeout", "deadline-cancelled-early"}[g.Weighted("ctx", 5, 3, 3, 2)]
 			r.CtxMs = []int{1, 7, 40, 300, 2000}[g.N("ctxms", 5)]
 			r.Read = []string{"now", "later", "abandon"}[g.Weighted("read", 6, 2, 2)]
 			r.LaterMs = []int{5, 60, 900}[g.N("laterms", 3)]
@@ -111,11 +115,33 @@ func runC07(e *Engine, g G, o RunOpt) RunInfo {
 	}
 	var cancels []cancelAt
 	tasksDone := 0
+	reqByIDDyn := map[string]c07Req{}
 	var pendingAtEnd []string
 	var live []LiveTask
 	probeHandled := false
 	marker := 0
 
+	var hq []string // handler-issued requests waiting for their reader
+	onPacket := func(snd xmpp.Sender, p stanza.Packet) {
+		iq, ok := p.(*stanza.IQ)
+		if !ok || !strings.HasPrefix(iq.Id, "srvreq-") {
+			return
+		}
+		id := "h-" + strings.TrimPrefix(iq.Id, "srvreq-")
+		req, _ := stanza.NewIQ(stanza.Attrs{Type: stanza.IQTypeGet, Id: id, To: SimDomain})
+		req.Payload = &stanza.Version{}
+		ctx, cancel := context.WithCancel(context.Background())
+		cancels = append(cancels, cancelAt{at: e.Now() + 24*time.Hour, fn: cancel, id: id})
+		ctxEnd[id] = -1
+		reqByIDDyn[id] = c07Req{ID: id, Ctx: "open", Read: "now", Answer: "once"}
+		e.Logf("cb.handler", "handler issues SendIQ %s", id)
+		ch, err := snd.SendIQ(ctx, req)
+		callErr[id] = err
+		if err == nil && ch != nil {
+			chans[id] = ch
+			hq = append(hq, id)
+		}
+	}
 	resp := func(id, typ string) (string, c07Resp) {
 		marker++
 		m := fmt.Sprintf("resp%d@%s", marker, SimDomain)
@@ -140,6 +166,9 @@ func runC07(e *Engine, g G, o RunOpt) RunInfo {
 				id := el.Attr("id")
 				written[id] = e.Now()
 				r, ok := plan[id]
+				if !ok && strings.HasPrefix(id, "h-") {
+					r, ok = c07Req{ID: id, Answer: "once"}, true
+				}
 				if !ok {
 					return false
 				}
@@ -179,6 +208,7 @@ func runC07(e *Engine, g G, o RunOpt) RunInfo {
 		if sc.Component {
 			w, s, c, ok := StartComponent(e, "s3cr3t", DefaultNeg(), func(w *CompW, s *Server) {
 				w.Dawdle = sc.Dawdle
+				w.OnPacket = onPacket
 				w.CatchAll()
 				prepSrv(s)
 			})
@@ -193,6 +223,7 @@ func runC07(e *Engine, g G, o RunOpt) RunInfo {
 		} else {
 			s, ok := StartClient(e, sc.Client, []NegScript{DefaultNeg()}, func(w *CW, s *Server) {
 				w.Dawdle = sc.Dawdle
+				w.OnPacket = onPacket
 				w.CatchAll()
 				prepSrv(s)
 			})
@@ -252,6 +283,10 @@ func runC07(e *Engine, g G, o RunOpt) RunInfo {
 						ctx, cancel = context.WithTimeout(ctx, d)
 						ctxEnd[r.ID] = e.Now() + d
 						_ = cancel
+					case "deadline-cancelled-early":
+						// a context with a far deadline that the caller cancels itself, much earlier
+						ctx, cancel = context.WithTimeout(ctx, time.Hour+13*time.Microsecond)
+						cancels = append(cancels, cancelAt{at: e.Now() + time.Duration(r.CtxMs)*time.Millisecond + 777*time.Microsecond, fn: cancel, id: r.ID})
 					}
 					iq, _ := stanza.NewIQ(stanza.Attrs{Type: stanza.IQTypeGet, Id: r.ID, To: SimDomain})
 					iq.Payload = &stanza.Version{}
@@ -330,6 +365,46 @@ func runC07(e *Engine, g G, o RunOpt) RunInfo {
 				}
 			})
 		}
+		if sc.HandlerIQ > 0 {
+			hdone := false
+			e.Go("hreader", func() {
+				for k := 0; k < sc.HandlerIQ; k++ {
+					if e.WaitUntilFor("hreader", 30*time.Second, func() bool { return len(hq) > 0 || hdone }) || len(hq) == 0 {
+						return
+					}
+					id := hq[0]
+					hq = hq[1:]
+					ch := chans[id]
+					select {
+					case v, ok := <-ch:
+						e.Yield("hreader.read")
+						if ok {
+							g := &c07Got{req: id, marker: v.From, id: v.Id, at: e.Now()}
+							gots[id] = g
+							e.Logf("app.recv", "%s (issued by a handler) got iq from=%s", id, v.From)
+							select {
+							case _, ok2 := <-ch:
+								e.Yield("hreader.read2")
+								g.closed = !ok2
+							case <-time.After(2*time.Second + 29*time.Microsecond):
+								e.Yield("hreader.read2.timeout")
+							}
+						}
+					case <-time.After(8*time.Second + 31*time.Microsecond):
+						e.Yield("hreader.timeout")
+						e.Logf("app.readtimeout", "%s (issued by a handler)", id)
+					}
+				}
+			})
+			for k := 0; k < sc.HandlerIQ; k++ {
+				e.Sleep(time.Duration(3+k)*time.Millisecond + 19*time.Microsecond)
+				if !conn.Dead {
+					conn.Send(fmt.Sprintf("<iq id='srvreq-%d' type='get' from='%s'><query xmlns='jabber:iq:version'/></iq>", k+1, SimDomain))
+				}
+			}
+			defer func() { hdone = true }()
+			e.Probe("c07.handler_sends_iq")
+		}
 		e.WaitUntilFor("tasks", 5*time.Minute, func() bool { return tasksDone == sc.Tasks })
 		e.Sleep(5 * time.Second)
 		// end every context that is still open
@@ -395,6 +470,9 @@ func runC07(e *Engine, g G, o RunOpt) RunInfo {
 	for _, r := range sc.Reqs {
 		reqByID[r.ID] = r
 	}
+	for id, r := range reqByIDDyn {
+		reqByID[id] = r
+	}
 	// accounting: every response is consumed exactly once, by the right party
 	byChan := map[string]string{} // marker -> request id that received it
 	for id, gt := range gots {
@@ -452,6 +530,9 @@ func runC07(e *Engine, g G, o RunOpt) RunInfo {
 		cand := rs.sentAt == earliest[rs.id]
 		first := !seenFirst[rs.id]
 		seenFirst[rs.id] = true
+		if end, ok := ctxEnd[rs.id]; ok && inChan != "" && end >= 0 && rs.sentAt+time.Duration(sc.LatencyNs) > end+time.Millisecond {
+			e.Violate("C07", "late-response-delivered-to-caller:"+rq.Ctx, "response %s to %s arrived at %v, its context had ended at %v, yet it was put on the request's channel instead of being routed like any other packet", rs.marker, rs.id, rs.sentAt+time.Duration(sc.LatencyNs), end)
+		}
 		if inChan != "" {
 			if !cand {
 				e.Violate("C07", "duplicate-delivered-to-caller", "late duplicate %s to %s was delivered on the channel", rs.marker, rs.id)
